@@ -215,6 +215,63 @@ pub fn operator_inputs() -> Vec<Input> {
     out
 }
 
+/// A fixed module in which every standard section is present.
+pub fn base_desc() -> gen::Desc {
+    use crate::gen::*;
+    use crate::optable::T;
+    use wasm_encoder::Instruction as I;
+    let mut d = Desc::default();
+    d.types.push(Sig { params: vec![], results: vec![] });
+    d.types.push(Sig { params: vec![T::I32], results: vec![T::I32] });
+    d.funcs.push(FuncD { ty: 0, imported: true });
+    d.imports.push(Imp { module: "env".into(), field: "imp".into(), kind: ImpKind::Func(0) });
+    d.funcs.push(FuncD { ty: 0, imported: false });
+    d.funcs.push(FuncD { ty: 1, imported: false });
+    d.tables.push(TableD { ety: T::FuncRef, min: 2, max: None, t64: false, imported: false });
+    d.mems.push(MemD { min: 1, max: None, m64: false, shared: false, imported: false });
+    d.globals.push(GlobalD { ty: T::I32, mutable: true, imported: false, init: Some(Expr::I32(5)) });
+    d.exports.push(ExportD { name: "f".into(), kind: wasm_encoder::ExportKind::Func, idx: 2 });
+    d.exports.push(ExportD { name: "m".into(), kind: wasm_encoder::ExportKind::Memory, idx: 0 });
+    d.start = Some(1);
+    d.elems.push(ElemD { mode: ElemMode::Active { table: 0, offset: Expr::I32(0), explicit_table: false }, ety: T::FuncRef, funcs_form: true, items: vec![Expr::Func(1), Expr::Func(2)] });
+    d.data.push(DataD { mode: DataMode::Active { mem: 0, offset: Expr::I32(8) }, bytes: vec![1, 2, 3] });
+    d.data.push(DataD { mode: DataMode::Passive, bytes: vec![9] });
+    d.datacount = true;
+    d.bodies.push(BodyD { locals: vec![], instrs: vec![I::Call(0), I::DataDrop(1), I::End] });
+    d.bodies.push(BodyD { locals: vec![T::I32], instrs: vec![I::LocalGet(0), I::GlobalGet(0), I::I32Add, I::LocalTee(1), I::End] });
+    d.names.present = true;
+    d.names.module = Some("base".into());
+    d.names.funcs = vec![(1, "one".into()), (2, "two".into())];
+    d.producers = Some(vec![("language".into(), vec![("Rust".into(), "1".into())])]);
+    d
+}
+
+/// TLC-enumerated placements of unknown custom sections (Enum_Customs.tla) in the base module
+pub fn custom_layout_inputs(path: &str) -> Vec<Input> {
+    let text = std::fs::read_to_string(path).expect("layout file");
+    let mut out = vec![];
+    for (k, l) in text.lines().filter(|l| !l.trim().is_empty()).enumerate() {
+        let v: Value = serde_json::from_str(l).unwrap();
+        let mut d = base_desc();
+        let mut descr = String::new();
+        for (q, slot) in v["layout"].as_array().unwrap().iter().enumerate() {
+            let pos = slot["pos"].as_u64().unwrap() as u8;
+            let after = match pos {
+                10 => 12,
+                11 => 10,
+                12 => 11,
+                p => p,
+            };
+            let len = slot["len"].as_u64().unwrap() as usize;
+            let name = slot["name"].as_str().unwrap().to_string();
+            descr.push_str(&format!("{}@{}/{} ", name, pos, len));
+            d.customs.push(gen::CustomD { after, name, data: (0..len).map(|x| (x as u8).wrapping_mul(37).wrapping_add(q as u8 + pos)).collect() });
+        }
+        out.push(Input { id: format!("cust-{}", k), bytes: d.encode(), source: format!("cust:{}", descr.trim()) });
+    }
+    out
+}
+
 /// Resolve a comma separated list of input sources:
 ///   gen:<n>[:<profile>]  fam:<tag>:<path>  fixtures  file:<path>
 pub fn resolve_inputs(spec: &str, seed: u64) -> Vec<Input> {
@@ -230,6 +287,7 @@ pub fn resolve_inputs(spec: &str, seed: u64) -> Vec<Input> {
             "fam" => out.extend(family_inputs(f[2], f[1])),
             "ctl" => out.extend(control_inputs(f[1])),
             "ops" => out.extend(operator_inputs()),
+            "cust" => out.extend(custom_layout_inputs(f[1])),
             "fixtures" => out.extend(fixture_inputs().into_iter().filter(|i| absmod::validate(&i.bytes).is_ok())),
             "fixtures-all" => out.extend(fixture_inputs()),
             "file" => {
@@ -402,4 +460,226 @@ pub fn gc_case(inp: &Input, cfg: &Cfg) -> Value {
         "inm": inm, "outm": outm, "sigma": rt.sigma, "extra_roots": extra,
         "gc2_same": gc2_same, "gc2_detail": gc2_detail, "decl_only_passive": decl_only_passive,
     })
+}
+
+// ---- lifecycle histories (C08, C12, C14) -----------------------------------------------------
+
+fn held_customs(m: &walrus::Module) -> Vec<String> {
+    let ids = walrus::IdsToIndices::default();
+    m.customs.iter().filter(|(_, s)| s.name() != run::PROBE_NAME).map(|(_, s)| format!("{}#{}", s.name(), absmod::fnv(&s.data(&ids)))).collect()
+}
+
+/// (tail of non-core sections, producers processed-by tools, digest of the core sections)
+pub fn inventory(bytes: &[u8]) -> (Vec<Value>, Vec<String>, String) {
+    let mut tail = vec![];
+    let mut core: Vec<u8> = vec![];
+    let mut tools = vec![];
+    if let Ok(m) = absmod::project(bytes) {
+        for f in &m.producers {
+            if f.field == "processed-by" {
+                tools = f.values.iter().map(|v| v.0.clone()).collect();
+            }
+        }
+    }
+    for p in wasmparser::Parser::new(0).parse_all(bytes) {
+        let Ok(p) = p else { break };
+        if let wasmparser::Payload::CustomSection(c) = &p {
+            let n = c.name();
+            let (kind, name) = if n == "name" {
+                ("name", "name".to_string())
+            } else if n == "producers" {
+                ("producers", "producers".to_string())
+            } else if n.starts_with(".debug") {
+                ("dwarf", ".debug".to_string())
+            } else if n == run::PROBE_NAME {
+                continue;
+            } else {
+                ("custom", format!("{}#{}", n, absmod::fnv(c.data())))
+            };
+            // several DWARF sections count as one inventory item
+            if kind == "dwarf" && tail.iter().any(|t: &Value| t["kind"] == "dwarf") {
+                continue;
+            }
+            tail.push(json!({"kind": kind, "name": name}));
+        } else if let Some((_, range)) = p.as_section() {
+            core.extend_from_slice(&bytes[range]);
+        }
+    }
+    (tail, tools, absmod::fnv(&core))
+}
+
+/// the abstract input of Lifecycle.tla for a binary
+pub fn lifecycle_input(bytes: &[u8], names_hint: Option<bool>) -> Value {
+    let m = absmod::project(bytes).unwrap_or_default();
+    let mut customs = vec![];
+    let mut has_dwarf = false;
+    for p in wasmparser::Parser::new(0).parse_all(bytes) {
+        let Ok(p) = p else { break };
+        if let wasmparser::Payload::CustomSection(c) = &p {
+            let n = c.name();
+            if n.starts_with(".debug") {
+                has_dwarf = true;
+            } else if n != "name" && n != "producers" {
+                customs.push(format!("{}#{}", n, absmod::fnv(c.data())));
+            }
+        }
+    }
+    let mut tools = vec![];
+    for f in &m.producers {
+        if f.field == "processed-by" {
+            tools = f.values.iter().map(|v| v.0.clone()).collect();
+        }
+    }
+    // names that walrus attaches to entities it always emits; local names alone are ambiguous (unused locals are
+    // dropped together with their names), in that case the caller supplies what was observed
+    let limit = |k: &str| -> i32 {
+        (match k {
+            "func" => m.funcs.len(),
+            "type" => m.types.len(),
+            "table" => m.tables.len(),
+            "memory" => m.memories.len(),
+            "global" => m.globals.len(),
+            "elem" => m.elems.len(),
+            "data" => m.data.len(),
+            _ => 0,
+        }) as i32
+    };
+    let firm = m.names.iter().any(|n| n.kind == "module" || (["func", "type", "table", "memory", "global", "elem", "data"].contains(&n.kind.as_str()) && n.idx < limit(&n.kind)));
+    let local_only = !firm && m.names.iter().any(|n| n.kind == "local");
+    let has_names = if local_only { names_hint.unwrap_or(false) } else { firm };
+    json!({"customs": customs, "hasNames": has_names, "tools": tools, "hasDwarf": has_dwarf, "namesAmbiguous": local_only})
+}
+
+pub fn lifecycle_case(inp: &Input, cfg: &Cfg, script: &[&str], tag: &str) -> Value {
+    use std::sync::atomic::{AtomicU32, Ordering};
+    use std::sync::Arc;
+    let calls = Arc::new(AtomicU32::new(0));
+    let mk_config = |calls: &Arc<AtomicU32>| {
+        let mut c = cfg.to_config();
+        let c2 = calls.clone();
+        c.on_parse(move |_, _| {
+            c2.fetch_add(1, Ordering::SeqCst);
+            Ok(())
+        });
+        c
+    };
+    let mut events = vec![];
+    let mut module: Option<walrus::Module> = None;
+    let mut last_out: Vec<u8> = vec![];
+    // a reference emit tells whether a name section made only of local names is retained
+    let hint = {
+        let mut c = cfg.clone();
+        c.names = true;
+        c.probe = false;
+        let rt = run::roundtrip(&inp.bytes, &c, 0);
+        if rt.outcome == "ok" { Some(inventory(&rt.out).0.iter().any(|t| t["kind"] == "name")) } else { None }
+    };
+    let cfgj = json!({"names": cfg.names, "producers": cfg.producers, "dwarf": cfg.dwarf});
+    for step in script {
+        match *step {
+            "parse" | "reparse" => {
+                let bytes = if *step == "parse" { inp.bytes.clone() } else { last_out.clone() };
+                let r = std::panic::catch_unwind(std::panic::AssertUnwindSafe(|| mk_config(&calls).parse(&bytes)));
+                let input = lifecycle_input(&bytes, hint);
+                match r {
+                    Ok(Ok(m)) => {
+                        events.push(json!({"ev": step, "ok": true, "cfg": cfgj, "input": input, "calls": calls.load(Ordering::SeqCst), "held": held_customs(&m)}));
+                        module = Some(m);
+                    }
+                    Ok(Err(e)) => {
+                        events.push(json!({"ev": step, "ok": false, "cfg": cfgj, "input": input, "calls": calls.load(Ordering::SeqCst), "held": [], "error": run::short(&format!("{:#}", e))}));
+                        break;
+                    }
+                    Err(p) => {
+                        events.push(json!({"ev": "panic", "at": step, "msg": run::short(&run::panic_msg(p))}));
+                        break;
+                    }
+                }
+            }
+            "emit" => {
+                let Some(m) = module.as_mut() else { break };
+                match run::emit(m, false) {
+                    Ok(e) => {
+                        let (tail, tools, core) = inventory(&e.bytes);
+                        events.push(json!({"ev": "emit", "outcome": "ok", "digest": absmod::fnv(&e.bytes), "len": e.bytes.len(),
+                            "out": {"core": core, "tail": tail, "tools": tools}, "held": held_customs(m)}));
+                        last_out = e.bytes;
+                    }
+                    Err(e) => {
+                        events.push(json!({"ev": "emit", "outcome": e, "digest": "", "len": 0, "out": {"core": "", "tail": [], "tools": []}, "held": []}));
+                        break;
+                    }
+                }
+            }
+            "gc" => {
+                let Some(m) = module.as_mut() else { break };
+                match run::gc(m) {
+                    Ok(()) => events.push(json!({"ev": "gc", "held": held_customs(m)})),
+                    Err(e) => {
+                        events.push(json!({"ev": "panic", "at": "gc", "msg": e}));
+                        break;
+                    }
+                }
+            }
+            _ => {}
+        }
+    }
+    json!({"id": format!("{}~{}", inp.id, tag), "source": inp.source, "script": script, "events": events})
+}
+
+// ---- configuration matrix (C14) ---------------------------------------------------------------
+
+fn section_rows(bytes: &[u8]) -> Vec<Value> {
+    let mut v = vec![];
+    for p in wasmparser::Parser::new(0).parse_all(bytes) {
+        let Ok(p) = p else { break };
+        if let wasmparser::Payload::CustomSection(c) = &p {
+            let n = c.name();
+            let kind = if n == "name" { "name" } else if n == "producers" { "producers" } else if n.starts_with(".debug") { "debug" } else { "custom" };
+            v.push(json!({"id": 0, "name": n, "digest": absmod::fnv(c.data()), "kind": kind}));
+        } else if let Some((id, range)) = p.as_section() {
+            v.push(json!({"id": id, "name": "", "digest": absmod::fnv(&bytes[range]), "kind": "core"}));
+        }
+    }
+    v
+}
+fn producers_json(m: &AbsModule) -> Vec<Value> {
+    m.producers.iter().map(|f| json!({"field": f.field, "values": f.values})).collect()
+}
+
+/// run one input under every vector of the five switches
+pub fn config_case(inp: &Input, dwarf_ok: bool) -> Value {
+    use std::sync::atomic::{AtomicU32, Ordering};
+    use std::sync::Arc;
+    let inm = absmod::project(&inp.bytes).unwrap_or_default();
+    let in_has_dwarf = inm.sections.iter().any(|s| s.name.starts_with(".debug"));
+    let mut runs = vec![];
+    for bits in 0..32u32 {
+        let cfg = Cfg { names: bits & 1 != 0, producers: bits & 2 != 0, dwarf: bits & 4 != 0, xform: bits & 8 != 0, stable: bits & 16 != 0, synth: false, probe: false };
+        if cfg.dwarf && !dwarf_ok {
+            continue;
+        }
+        let calls = Arc::new(AtomicU32::new(0));
+        let c2 = calls.clone();
+        let mut config = cfg.to_config();
+        config.on_parse(move |_, _| {
+            c2.fetch_add(1, Ordering::SeqCst);
+            Ok(())
+        });
+        let flags = json!({"names": cfg.names, "producers": cfg.producers, "dwarf": cfg.dwarf, "xform": cfg.xform, "stable": cfg.stable});
+        let r = std::panic::catch_unwind(std::panic::AssertUnwindSafe(|| config.parse(&inp.bytes)));
+        let run = match r {
+            Ok(Ok(mut m)) => match run::emit(&mut m, false) {
+                Ok(e) => {
+                    let om = absmod::project(&e.bytes).unwrap_or_default();
+                    json!({"flags": flags, "outcome": "ok", "calls": calls.load(Ordering::SeqCst), "sections": section_rows(&e.bytes), "producers": producers_json(&om)})
+                }
+                Err(e) => json!({"flags": flags, "outcome": format!("emit-{}", e), "calls": calls.load(Ordering::SeqCst), "sections": [], "producers": []}),
+            },
+            Ok(Err(_)) => json!({"flags": flags, "outcome": "parse-err", "calls": calls.load(Ordering::SeqCst), "sections": [], "producers": []}),
+            Err(p) => json!({"flags": flags, "outcome": format!("parse-panic:{}", run::short(&run::panic_msg(p))), "calls": calls.load(Ordering::SeqCst), "sections": [], "producers": []}),
+        };
+        runs.push(run);
+    }
+    json!({"id": inp.id, "source": inp.source, "in_has_dwarf": in_has_dwarf, "in_producers": producers_json(&inm), "runs": runs})
 }
